@@ -214,9 +214,14 @@ def from_desc(desc, directed=False):
         n, el, hc, ch = row[:4]
         G.add_node(n, element=el, hcount=hc, charge=ch, aromatic=bool(row[4]) if len(row) > 4 else False,
                    atom_map=n, neighbors=[])
+        for k in ("element", "hcount", "charge"):
+            if G.nodes[n][k] is None:   # attribute absent in the described graph
+                del G.nodes[n][k]
     for row in desc["edges"]:
         u, v, o = row[:3]
         if isinstance(o, list):
             o = tuple(o)
         G.add_edge(u, v, order=o, standard_order=row[3] if len(row) > 3 else 0.0)
+        if o is None:
+            del G.edges[u, v]["order"]
     return G
